@@ -88,6 +88,8 @@ func (s *Translator) translateFilterExpression(filterExpression *cypher.FilterEx
 
 		if constraints, err := s.treeTranslator.ConsumeAllConstraints(); err != nil {
 			return err
+		} else if constraints.Expression == nil {
+			return fmt.Errorf("filter expression must have a where clause")
 		} else {
 			var nestedQuery pgsql.Expression
 
